@@ -80,6 +80,46 @@ func gdUpdates(o *ReqOp, x *conc.Ctx, pkg *reg.Pkg, jsonScalars bool) ([]*gpb.Up
 	return out, nil
 }
 
+// losslessTyped: the leaf types whose TypedValue form gnmidiff can compare with the RFC 7951
+// JSON form without a schema (protoLeafToJSON: strings, booleans, integers up to 32 bits, binary,
+// and leaf-lists of those; 64-bit integers, decimal64 and identityrefs are documented as lossy).
+var losslessTyped = map[string]bool{"string": true, "boolean": true, "int8": true, "int16": true, "int32": true, "uint8": true, "uint16": true, "uint32": true, "binary": true}
+
+// typedWhereLossless: like gdRequest(allJSON) except that scalar and leaf-list payloads of a
+// lossless type are written as TypedValues (scalar / leaflist_val) instead of JSON.
+func gdRequestTyped(ops []ReqOp, x *conc.Ctx, pkg *reg.Pkg) (*gpb.SetRequest, int, error) {
+	req := &gpb.SetRequest{}
+	typed := 0
+	for i := range ops {
+		o := &ops[i]
+		if o.K == "del" {
+			p, err := x.GNMIPath(o.P, pkg)
+			if err != nil {
+				return nil, 0, err
+			}
+			req.Delete = append(req.Delete, p)
+			continue
+		}
+		asJSON := true
+		if o.T == "leaf" || o.T == "ll" {
+			if steps, err := x.Resolve(o.P); err == nil && losslessTyped[x.TypeAt(steps[len(steps)-1].Pos)] {
+				asJSON = false
+				typed++
+			}
+		}
+		us, err := gdUpdates(o, x, pkg, asJSON)
+		if err != nil {
+			return nil, 0, err
+		}
+		if o.K == "rep" {
+			req.Replace = append(req.Replace, us...)
+		} else {
+			req.Update = append(req.Update, us...)
+		}
+	}
+	return req, typed, nil
+}
+
 func gdRequest(ops []ReqOp, x *conc.Ctx, pkg *reg.Pkg, seed int64, allJSON bool) (*gpb.SetRequest, error) {
 	req := &gpb.SetRequest{}
 	for i := range ops {
@@ -204,6 +244,25 @@ func runGD(l *GDLine, pkg *reg.Pkg, x *conc.Ctx, prop string, res *rep.Result, o
 			if bad := emptyDiff(d); bad != "" {
 				res.Violate("C22", sig("self-diff", mode, "self"), fmt.Sprintf("DiffSetRequest(a, a) [%s] is not empty: %s; a = %s", mode, bad, compactProto(a)), gc)
 			}
+			// without a schema: the same request with its lossless payloads written as TypedValues
+			if mode == "noschema" {
+				if bt, n, err := gdRequestTyped(l.Req, x, pkg); err == nil && n > 0 {
+					var d3 gnmidiff.SetRequestIntentDiff
+					derr, pan := guard(func() error {
+						var err error
+						d3, err = gnmidiff.DiffSetRequest(a, bt, s)
+						return err
+					})
+					if pan != "" {
+						res.Violate("C20", sig("panic", mode, "typed"), "DiffSetRequest panicked: "+firstLine(pan)+" on "+compactProto(bt), gc)
+					} else if derr == nil {
+						res.Count("typed_vs_json_compared", 1)
+						if bad := emptyDiff(d3); bad != "" {
+							res.Violate("C22", sig("same-intent", mode, "typed-encoding"), fmt.Sprintf("the same request with JSON and with TypedValue payloads [%s] differs: %s; a = %s; b = %s", mode, bad, compactProto(a), compactProto(bt)), gc)
+						}
+					}
+				}
+			}
 			// every rewrite has the same intent: empty diff
 			for kind, ops := range l.Rw {
 				if kind == "split" && mode == "noschema" && jsonAtEntry {
@@ -297,22 +356,41 @@ func runGD(l *GDLine, pkg *reg.Pkg, x *conc.Ctx, prop string, res *rep.Result, o
 			ups = append(ups, us...)
 		}
 		base := []*gpb.Notification{{Timestamp: 1, Update: ups}}
-		var d gnmidiff.SetToNotifsDiff
-		derr, pan := guard(func() error {
-			var err error
-			d, err = gnmidiff.DiffSetRequestToNotifications(a, base, s)
-			return err
-		})
-		if pan != "" {
-			res.Violate("C20", sig("panic", mode, "exact"), "DiffSetRequestToNotifications panicked: "+firstLine(pan), gc)
-			continue
+		failed := false
+		forms := notifForms(ups)
+		for _, form := range []string{"single", "prefixed", "prefixed-then-plain", "plain-then-prefixed"} {
+			ns, ok := forms[form]
+			if !ok {
+				continue
+			}
+			var d gnmidiff.SetToNotifsDiff
+			derr, pan := guard(func() error {
+				var err error
+				d, err = gnmidiff.DiffSetRequestToNotifications(a, ns, s)
+				return err
+			})
+			if pan != "" {
+				res.Violate("C20", sig("panic", mode, "exact"), "DiffSetRequestToNotifications panicked: "+firstLine(pan), gc)
+				failed = true
+				break
+			}
+			if derr != nil {
+				if form != "single" {
+					res.Violate("C23", sig("exact-error", mode, form), fmt.Sprintf("the same leaves spread over notifications (%s) [%s] give an error where one notification does not: %v; notifications %s", form, mode, derr, compactNotifs(ns)), gc)
+				}
+				res.Count("diff_errors_"+mode, 1)
+				failed = true
+				break
+			}
+			if len(d.MissingUpdates)+len(d.ExtraUpdates)+len(d.MismatchedUpdates) > 0 {
+				res.Violate("C23", sig("exact", mode, form), fmt.Sprintf("notifications (%s) carrying exactly the request's leaves [%s]: missing %v extra %v mismatched %v; request %s; notifications %s", form, mode, keysOf(d.MissingUpdates), keysOf(d.ExtraUpdates), keysOf(d.MismatchedUpdates), compactProto(a), compactNotifs(ns)), gc)
+				failed = true
+				break
+			}
+			res.Count("exact_ok_"+form, 1)
 		}
-		if derr != nil {
-			res.Count("diff_errors_"+mode, 1)
-			continue
-		}
-		if len(d.MissingUpdates)+len(d.ExtraUpdates)+len(d.MismatchedUpdates) > 0 {
-			res.Violate("C23", sig("exact", mode, "none"), fmt.Sprintf("notifications carrying exactly the request's leaves [%s]: missing %v extra %v mismatched %v; request %s", mode, keysOf(d.MissingUpdates), keysOf(d.ExtraUpdates), keysOf(d.MismatchedUpdates), compactProto(a)), gc)
+		_ = base
+		if failed {
 			continue
 		}
 		res.Count("exact_ok", 1)
@@ -401,6 +479,59 @@ func runGD(l *GDLine, pkg *reg.Pkg, x *conc.Ctx, prop string, res *rep.Result, o
 			res.Count("added_under_deleted", 1)
 		}
 	}
+}
+
+// notifForms spreads the updates over notifications in the ways a collector may deliver them:
+// one notification; two notifications of which the first / the second carries the common
+// first path element as its prefix and the other has no prefix.
+func notifForms(ups []*gpb.Update) map[string][]*gpb.Notification {
+	out := map[string][]*gpb.Notification{"single": {{Timestamp: 1, Update: ups}}}
+	if len(ups) < 2 {
+		if len(ups) == 1 && len(ups[0].Path.GetElem()) > 1 {
+			out["prefixed"] = []*gpb.Notification{withPrefix(ups, 1)}
+		}
+		return out
+	}
+	h := len(ups) / 2
+	plain := func(us []*gpb.Update, ts int64) *gpb.Notification { return &gpb.Notification{Timestamp: ts, Update: us} }
+	if p := withPrefix(ups[:h], 1); p != nil {
+		out["prefixed-then-plain"] = []*gpb.Notification{p, plain(ups[h:], 2)}
+	}
+	if p := withPrefix(ups[h:], 1); p != nil {
+		p.Timestamp = 2
+		out["plain-then-prefixed"] = []*gpb.Notification{plain(ups[:h], 1), p}
+	}
+	return out
+}
+
+// withPrefix moves the first n path elements, when common to all updates, into the prefix.
+func withPrefix(ups []*gpb.Update, n int) *gpb.Notification {
+	if len(ups) == 0 {
+		return nil
+	}
+	for _, u := range ups {
+		if len(u.Path.GetElem()) <= n {
+			return nil
+		}
+		for i := 0; i < n; i++ {
+			if !proto.Equal(u.Path.Elem[i], ups[0].Path.Elem[i]) {
+				return nil
+			}
+		}
+	}
+	nt := &gpb.Notification{Timestamp: 1, Prefix: &gpb.Path{Elem: append([]*gpb.PathElem{}, ups[0].Path.Elem[:n]...)}}
+	for _, u := range ups {
+		nt.Update = append(nt.Update, &gpb.Update{Path: &gpb.Path{Elem: append([]*gpb.PathElem{}, u.Path.Elem[n:]...)}, Val: u.Val})
+	}
+	return nt
+}
+
+func compactNotifs(ns []*gpb.Notification) string {
+	var out []string
+	for _, n := range ns {
+		out = append(out, compactProto(n))
+	}
+	return strings.Join(out, " | ")
 }
 
 // perturbValue returns a different value of the same TypedValue kind, or nil.
